@@ -1,14 +1,15 @@
 #!/bin/sh
+R=${SA_REPO:-/repo}; export SA_REPO=$R   # the tree the patches are applied to (a scratch worktree while helper agents read /repo)
 # usage: try_refactors.sh <dir with k/patch.diff> <prop...>
 d="$1"; shift
 for k in 1 2 3 4 5 6; do
   [ -f $d/$k/patch.diff ] || continue
-  if ! git -C /repo apply --check $d/$k/patch.diff 2>/dev/null; then echo "refactor $k: patch does not apply"; continue; fi
-  git -C /repo apply $d/$k/patch.diff
+  if ! git -C $R apply --check $d/$k/patch.diff 2>/dev/null; then echo "refactor $k: patch does not apply"; continue; fi
+  git -C $R apply $d/$k/patch.diff
   for p in "$@"; do
     out=$(cd /verif && /venv/bin/python -m sa check $p --tier quick 2>&1); rc=$?
     if [ $rc -ne 0 ]; then echo "refactor $k $p rc=$rc"; echo "$out" | grep -v "^KNOWN\|^note\|^VIOLATION" | grep "\[R\|ANALYSIS\|Error" | cut -c1-330 | head -6; else echo "refactor $k $p silent"; fi
   done
-  git -C /repo checkout -- .
+  git -C $R checkout -- .
 done
-git -C /repo status --short | head -3
+git -C $R status --short | head -3
